@@ -155,10 +155,22 @@ def proof_step(pid, module, thorough):
     if missing or r.returncode != 0:
         info["bad_axioms"]["<audit>"] = ["audit could not resolve: %s" % ", ".join(missing[:5]), out[-500:]]
     if thorough:
-        r2 = t2nlib.sh("lake env leanchecker %s 2>&1" % module, cwd=LEAN_DIR, check=False)
-        info["leanchecker_rc"] = r2.returncode
-        if r2.returncode != 0:
-            info["bad_axioms"]["<leanchecker>"] = [r2.stdout[-500:]]
+        # independent re-check of the compiled module; replaying the kernel tables needs up to ~18 GB (measured: C08),
+        # so it is skipped (and said so in the evidence) when less than 24 GB are available
+        avail_kb = 0
+        try:
+            for line in open("/proc/meminfo"):
+                if line.startswith("MemAvailable:"):
+                    avail_kb = int(line.split()[1])
+        except OSError:
+            pass
+        if avail_kb and avail_kb < 24 * 1024 * 1024:
+            info["leanchecker_rc"] = "skipped: %d MB available" % (avail_kb // 1024)
+        else:
+            r2 = t2nlib.sh("lake env leanchecker %s 2>&1" % module, cwd=LEAN_DIR, check=False)
+            info["leanchecker_rc"] = r2.returncode
+            if r2.returncode != 0:
+                info["bad_axioms"]["<leanchecker>"] = [r2.stdout[-500:]]
     return info
 
 
